@@ -139,6 +139,9 @@ def family():
         [{'t': 'RenameAppLabel', 'old': 'vapp', 'new': 'lib', 'legacy': None, 'models': ['Category']}],
         [{'t': 'RenameAppLabel', 'old': 'vapp', 'new': 'lib', 'legacy': None, 'models': ['Category', 'Item']}],
         [{'t': 'RenameAppLabel', 'old': 'vapp', 'new': 'lib', 'legacy': 'vapp', 'models': ['Item']}],
+        # a rename that only moves the table (old name == new name): the one way to evolve a Meta.db_table change
+        [{'t': 'RenameModel', 'old': 'Category', 'new': 'Category', 'db_table': 'shop_categories'}],
+        [{'t': 'RenameModel', 'old': 'Item', 'new': 'Item', 'db_table': 'vapp_things'}, rm('Category', 'Section')],
     ]
     out = [(spec, q) for q in seqs]
     # an app that used to carry the label `vapp` (legacy_app_label) listed BEFORE the app whose id is `vapp`:
